@@ -6,7 +6,7 @@
      which the translated function now differs from the model. *)
 From Coq Require Import List NArith ZArith Bool String.
 From Coq.Strings Require Import Byte.
-From RTCP Require Import Lib.Base Lib.Sval Lib.GoSem Gen.Funcs Gen.FuncsRemb
+From RTCP Require Import Lib.Base Lib.Sval Lib.GoSem Gen.Funcs Gen.FuncsRemb Gen.FuncsXr Model.Xr Check.XrOracles
   Model.Header Model.Feedback Model.Packet Check.Codec Check.Ops.
 Import ListNotations.
 Local Open Scope string_scope.
@@ -48,23 +48,23 @@ Definition t_size n l := if is_remb n then GoSrcRemb.src_size n l else GoSrc.src
 Definition t_dest n l := if is_remb n then GoSrcRemb.src_dest n l else GoSrc.src_dest n l.
 Definition t_header n l := if is_remb n then GoSrcRemb.src_header n l else GoSrc.src_header n l.
 
-(* NackPair.Range with the callback the harness uses: it records its argument and answers false on call number k *)
-Definition range_stopper (k : option nat) : nat * list Z -> Z -> (nat * list Z) * bool :=
-  fun s x => ((S (fst s), List.app (snd s) [x]), match k with Some k => negb (Nat.eqb (fst s) k) | None => true end).
-Definition src_range (id bm : N) (k : option nat) : sval :=
-  sres (fun s : nat * list Z => SL (map GoSrc.zn (snd s)))
-       (GoSrc.NackPair_Range _ (range_stopper k) (GoSrc.mkNackPair (Z.of_N id) (Z.of_N bm)) (0%nat, [])).
-Definition src_plist (id bm : N) : sval :=
-  sres (fun l => SL (map GoSrc.zn l)) (GoSrc.NackPair_PacketList (GoSrc.mkNackPair (Z.of_N id) (Z.of_N bm))).
+(* ExtendedReport.Unmarshal as translated (module GoSrcXr), its reflective reads instantiated with the reflection model
+   (Check/XrOracles.v); both results are printed as GoSrcXr records (the model's through src_xr) *)
+Definition model_xr_unmarshal (b : bytes) : sval :=
+  sres (fun x => SL (GoSrcXr.show_ExtendedReport (src_xr x))) (XR_unmarshal b).
+Definition xr_cmp (n : string) (b : bytes) : list sval :=
+  if n =? "ExtendedReport" then
+    cmp "xr_unmarshal_translated" (model_xr_unmarshal b) (GoSrcXr.src_xr_unmarshal m_read_uint32 m_read_XRHeader m_read_ReportBlock b)
+  else [].
 
 Definition src_check_all (op : sval) : list sval :=
   match op with
   | SL [SY o; SN id; SN bm] =>
-      if o =? "plist" then cmp_plain "packet_list" (sNs (packet_list (mkNackPair id bm))) (Some (src_plist id bm)) else []
+      if o =? "plist" then cmp_plain "packet_list" (sNs (packet_list (mkNackPair id bm))) (GoSrc.src_plist (Z.of_N id) (Z.of_N bm)) else []
   | SL [SY o; SN id; SN bm; k] =>
       if o =? "range" then
         match stop_of k with
-        | Some st => cmp_plain "range" (sNs (nack_range (mkNackPair id bm) st)) (Some (src_range id bm st))
+        | Some st => cmp_plain "range" (sNs (nack_range (mkNackPair id bm) st)) (GoSrc.src_range (Z.of_N id) (Z.of_N bm) st)
         | None => []
         end
       else []
@@ -73,7 +73,7 @@ Definition src_check_all (op : sval) : list sval :=
         if n =? "CompoundPacket" then
           cmp "compound_unmarshal" (sres (fun l => SL (map s_packet l)) (Compound_unmarshal b)) (GoSrc.src_compound_unmarshal b)
         else
-        match dec_by_name n b with Some m => cmp "unmarshal" m (t_unmarshal n b) | None => [] end
+        match dec_by_name n b with Some m => cmp "unmarshal" m (t_unmarshal n b) ++ xr_cmp n b | None => [] end
       else []
   | SL [SY o; SY n; SL bs] =>
       if o =? "decs" then
